@@ -1,3 +1,365 @@
-/- C18: property theorems (stub, not yet built) -/
+/-
+C18 — Scheduling simulations have no side effects.
+
+Property theorems only (helper lemmas: `Karp/Proofs/EffectsLemmas.lean`).
+Model: `Karp/Model/Effects.lean` (heap with deep copies; nominations and pod bookkeeping of a provisioning pass),
+       `Karp/Model/EffectFacts.lean` (the hand-written allowlist over the write-effect facts regenerated from the source).
+Spec:  `Karp/Spec/NoEffect.lean` (what may change, restated from the property text; evaluated by the driver on the
+       digests of the real world before and after real simulations / passes).
+
+A pure model cannot see aliasing.  The statement is therefore split the way the code is built:
+  (1) a *semantic* part — if every reference field of a `StateNode` is treated by the deep copy, then a simulation whose
+      writes are confined to what the copies reach (or to memory it allocates itself) leaves the observable world
+      unchanged, for all worlds and all histories of simulations (accepted, rejected, timed out: any write list);
+  (2) a *factual* part — decided over facts regenerated from the Go source on every run: the generated `DeepCopyInto`
+      does treat every reference field; every write site reachable from `SimulateScheduling` / `Provisioner.Schedule` is
+      admitted by the allowlist; no write method of the API client is reachable; the footprint of the admitted writes is
+      within what the property allows.
+The type-based region analysis behind (2) is in the trusted base; the dynamic digest search is the failing-input search.
+
+Full statement and what is proved.  The property as stated needs, of the real code, that EVERY write reachable from a
+simulation is confined (goes to a copy or to memory the simulation allocates): then `C18_simulations_unobservable`
+applies to every history.  At the pinned commit that was false for two write sites, both on the pods handed to the
+scheduler: `scheduling.newPodRequirements` sorts a pod's preferred node-affinity terms in place and
+`DefaultTopologySpreadInjector.Inject` stamps cluster-default spread constraints onto the pod, and
+`SimulateScheduling` passed the Candidates' own pod objects (shared by all simulations of a disruption decision).  That
+defect was found by `c18.simulate` (corpus/c18.simulate/001, 002) and is repaired in /repo (`SimulateScheduling` deep-copies
+the candidates' pods; known_findings.json `fixed`).  What remains in the allowlist's separate class `leak` is pinned by
+`fact_sim_known_leaks`: writes to the scheduler's own copies and to the provisioner's cached virtual pods (found by
+reading only, not exercised dynamically; the full statement would be `leakSyms .sim = []`).  Everything else is
+confined: `fact_sim_writes_allowed`.
+-/
+import Karp.Proofs.EffectsLemmas
+import Karp.Model.EffectFacts
+
 namespace Karp.C18
+open Karp.Effects Karp.EffectFacts
+open Karp.Spec.NoEffect (NodeVal PodVal PlacedPod ExistingPlacement ClaimPlacement Outcome Live)
+open Karp.Gen
+
+/-! ## Fact expectations over the regenerated tables -/
+
+/-- "no API object is written": no write method of the controller-runtime client is reachable from a simulation … -/
+theorem fact_sim_no_api_writes : C18Effects.simClientWrites = [] := by decide
+
+/-- … nor from `Provisioner.Schedule`; the first API write of a provisioning pass is the `Create` in
+    `Provisioner.Create`, reached from `CreateNodeClaims` only -/
+theorem fact_sched_no_api_writes :
+    C18Effects.schedClientWrites = [] ∧
+    C18Effects.createClientWrites = [("provisioning.Provisioner.Create", "client.Client.Create")] := by decide
+
+/-- every write site reachable from `disruption.SimulateScheduling` is admitted by the allowlist -/
+theorem fact_sim_writes_allowed : offending .sim = [] := by
+  set_option maxRecDepth 8192 in decide
+
+/-- every write site reachable from `Provisioner.Schedule` is admitted by the allowlist -/
+theorem fact_sched_writes_allowed : offending .sched = [] := by
+  set_option maxRecDepth 8192 in decide
+
+/-- the live regions a simulation can reach: the pod bookkeeping `GetPendingPods` keeps for the pods it refuses to
+    consider (it is the provisioner's own method) — and nothing else: no node usage, host ports, volumes, deletion
+    marks or nominations -/
+theorem fact_sim_footprint :
+    footprintSyms .sim = [("cluster", C18Effects.S.«state.Cluster.podHealthyNodePoolScheduledTime»),
+                          ("cluster", C18Effects.S.«state.Cluster.podToNodeClaim»),
+                          ("cluster", C18Effects.S.«state.Cluster.podsSchedulableTimes»),
+                          ("cluster", C18Effects.S.«state.Cluster.podsSchedulingAttempted»)] := by
+  set_option maxRecDepth 8192 in decide
+
+/-- the live regions `Provisioner.Schedule` can reach: nominations and pod bookkeeping -/
+theorem fact_sched_footprint :
+    footprintSyms .sched = [("node", C18Effects.S.«state.StateNode.nominatedUntil»),
+                            ("cluster", C18Effects.S.«state.Cluster.podHealthyNodePoolScheduledTime»),
+                            ("cluster", C18Effects.S.«state.Cluster.podToNodeClaim»),
+                            ("cluster", C18Effects.S.«state.Cluster.podsSchedulableTimes»),
+                            ("cluster", C18Effects.S.«state.Cluster.podsSchedulingAttempted»)] := by
+  set_option maxRecDepth 8192 in decide
+
+/-- the symbols of the footprints are what their names say (the generator numbers the symbols; this pins the numbers
+    used above to the names) -/
+theorem fact_footprint_symbols :
+    [C18Effects.S.«state.StateNode.nominatedUntil», C18Effects.S.«state.Cluster.podHealthyNodePoolScheduledTime»,
+     C18Effects.S.«state.Cluster.podToNodeClaim», C18Effects.S.«state.Cluster.podsSchedulableTimes»,
+     C18Effects.S.«state.Cluster.podsSchedulingAttempted»].map C18Effects.name =
+    ["state.StateNode.nominatedUntil", "state.Cluster.podHealthyNodePoolScheduledTime", "state.Cluster.podToNodeClaim",
+     "state.Cluster.podsSchedulableTimes", "state.Cluster.podsSchedulingAttempted"] := by
+  set_option maxRecDepth 8192 in decide
+
+/-- What the static analysis still sees after the repair of C18-sim-mutates-candidate-pods (`SimulateScheduling` now
+    hands the scheduler deep copies of the candidates' pods, so the `candidates` rows are gone): the in-place sort of a
+    pod's preferred node-affinity terms in `scheduling.newPodRequirements` and the stamping of default spread constraints
+    in `Inject` reach only the scheduler's own queue (root 0), pods seen through library callbacks (roots 1, 3: the copies
+    made through `lo.Map`) and the cached virtual pods of the provisioner (root 2 `provisioner`, CapacityBuffer pods:
+    found by reading only, not exercised dynamically).  A new write to an object shared with the caller changes this
+    list and breaks the theorem. -/
+theorem fact_sim_known_leaks :
+    leakSyms .sim = [(0, C18Effects.S.«provisioning/scheduling.Queue», C18Effects.S.«scheduling.newPodRequirements»),
+                     (3, C18Effects.S.«*k8s.io/api/core/v1.Pod», C18Effects.S.«scheduling.newPodRequirements»),
+                     (1, C18Effects.S.«github.com/samber/lo.Map», C18Effects.S.«scheduling.newPodRequirements»),
+                     (1, C18Effects.S.«github.com/samber/lo.Map», C18Effects.S.«provisioning/scheduling.DefaultTopologySpreadInjector.Inject»),
+                     (2, C18Effects.S.«provisioner», C18Effects.S.«scheduling.newPodRequirements»),
+                     (2, C18Effects.S.«provisioner», C18Effects.S.«provisioning/scheduling.DefaultTopologySpreadInjector.Inject»)] := by
+  set_option maxRecDepth 8192 in decide
+
+/-- `C18_deepcopy_complete`: the generated deep copies start from the shallow `*out = *in` and treat every
+    reference-holding field of `StateNode`, `HostPortUsage` and `VolumeUsage` -/
+theorem fact_deepcopy_complete :
+    C18Copy.stateNodeShallowFirst = true ∧
+    C18Copy.stateNodeFields.all (fun f => !f.2.2 || C18Copy.stateNodeDeepCopied.any (fun p => p.1 == f.1)) = true ∧
+    C18Copy.hostPortUsageShallowFirst = true ∧
+    C18Copy.hostPortUsageFields.all (fun f => !f.2.2 || C18Copy.hostPortUsageDeepCopied.any (fun p => p.1 == f.1)) = true ∧
+    C18Copy.volumeUsageShallowFirst = true ∧
+    C18Copy.volumeUsageFields.all (fun f => !f.2.2 || C18Copy.volumeUsageDeepCopied.any (fun p => p.1 == f.1)) = true := by
+  decide
+
+/-- the aggregates the property names are fields of `StateNode` (node usage, host ports, volumes, deletion marks,
+    nominations) -/
+theorem fact_statenode_aggregates :
+    ["podRequests", "podLimits", "daemonSetRequests", "daemonSetLimits", "hostPortUsage", "volumeUsage",
+     "markedForDeletion", "nominatedUntil"].all (fun n => C18Copy.stateNodeFields.any (fun f => f.1 == n)) = true := by
+  decide
+
+/-- origin lemma "existing nodes are copies": both entry points take their nodes from `Cluster.DeepCopyNodes()`, which
+    maps `DeepCopy` over the cluster's nodes, and hand (a filtered sub-slice of) exactly those to `NewScheduler` -/
+theorem fact_existing_nodes_are_copies :
+    C18Copy.simNodesSource = "cluster.DeepCopyNodes()" ∧
+    C18Copy.simStateNodesSource = "lo.Filter(nodes.Active(), …)" ∧
+    C18Copy.simNodesSourceArg = ["stateNodes"] ∧
+    C18Copy.schedNodesSource = "p.cluster.DeepCopyNodes()" ∧
+    C18Copy.schedNodesSourceArg = ["nodes.Active()"] ∧
+    C18Copy.deepCopyNodesCalls.contains "n.DeepCopy" = true := by decide
+
+/-- origin lemma "relaxation works on a copy": `Solve` hands `pod.DeepCopy()` to `trySchedule`, the only caller of
+    `Preferences.Relax` -/
+theorem fact_relaxation_on_copy :
+    C18Copy.solveTryScheduleArgs = ["pod.DeepCopy()"] ∧ C18Copy.relaxCallers = ["trySchedule"] := by decide
+
+/-- origin lemma "instance types are filtered into new slices before sorting": `filterInstanceTypesByRequirements`
+    collects into a slice it allocates itself and returns that slice (or nil) -/
+theorem fact_filter_returns_fresh_slice :
+    C18Copy.filterRemainingInit = "cloudprovider.InstanceTypes{}" ∧ C18Copy.filterReturns = ["nil", "remaining"] := by
+  decide
+
+/-- the nomination window is `max(2·BatchMaxDuration, 10 s)` -/
+theorem fact_nomination_window :
+    C18Copy.nominationBatchMultiplier = 2 ∧ C18Copy.nominationFloorSeconds = 10 := by decide
+
+/-- the specification's vocabulary is the code's: the bookkeeping fields it names are fields of `state.Cluster` -/
+theorem fact_policy_fields_exist :
+    Karp.Spec.NoEffect.bookkeepingFields.all (fun n => C18Copy.clusterFields.any (fun f => f.1 == n)) = true ∧
+    C18Copy.stateNodeFields.any (fun f => f.1 == "nominatedUntil") = true := by decide
+
+/-- the specification's field names are the names of the symbols the footprints consist of -/
+theorem fact_spec_names_footprint :
+    Karp.Spec.NoEffect.bookkeepingFields.map (fun f => "state.Cluster." ++ f) =
+      ["state.Cluster.podAcks", "state.Cluster.podsSchedulingAttempted", "state.Cluster.podsSchedulableTimes",
+       "state.Cluster.podHealthyNodePoolScheduledTime", "state.Cluster.podToNodeClaim"] := by decide
+
+/-- **C18_static_footprint_within_policy** — what the admitted writes can reach is within what the property allows: a
+    simulation reaches pod bookkeeping only (and only via `GetPendingPods`' refusal records), a provisioning pass reaches
+    nominations and pod bookkeeping only.  (Stated over the symbols; `fact_footprint_symbols` and
+    `fact_spec_names_footprint` give their names, which are the specification's `bookkeepingFields` / `nominatedUntil`.) -/
+theorem C18_static_footprint_within_policy :
+    (footprintSyms .sim).all (fun r => r.1 == "cluster" && anySym r.2 bookkeepingFieldSyms) = true ∧
+    (footprintSyms .sched).all (fun r => (r.1 == "cluster" && anySym r.2 bookkeepingFieldSyms) ||
+        (r.1 == "node" && isSym r.2 C18Effects.S.«state.StateNode.nominatedUntil»)) = true := by
+  set_option maxRecDepth 8192 in decide
+
+/-! ## Simulations leave the observable world unchanged (all worlds, all histories) -/
+
+/-- **C18_simulation_unobservable** — one simulation.  For every world (any heap, any live nodes, any shared cells),
+    every write list (an accepted, a rejected and a timed-out simulation differ only in the list), every deep copy that
+    treats all reference fields of the nodes: if the writes are confined to what the copies reach or to memory allocated
+    afterwards, the observation of the live nodes and of everything shared is exactly what it was, and the world stays
+    well-formed (so the next simulation starts under the same hypotheses). -/
+theorem C18_simulation_unobservable (t : String → Bool) (w : World) (ws : List (Addr × Int))
+    (wf : w.WF) (hc : ∀ o ∈ w.nodes, Complete t o = true) (conf : Confined t w ws) :
+    (simulate t w ws).obs = w.obs ∧ (simulate t w ws).WF := by
+  have hcell := simulate_cell_lt t w ws hc conf
+  have hnext := simulate_next_le t w ws
+  have ⟨hn, hs⟩ := simulate_nodes t w ws
+  refine ⟨?_, ?_, ?_⟩
+  · simp only [World.obs, hn, hs]
+    congr 1
+    · apply List.map_congr_left
+      intro o ho
+      apply observe_congr
+      intro a ha
+      exact hcell a (wf.1 o ho a ha)
+    · apply List.map_congr_left
+      intro a ha
+      exact hcell a (wf.2 a ha)
+  · intro o ho a ha
+    rw [hn] at ho
+    have := wf.1 o ho a ha
+    omega
+  · intro a ha
+    rw [hs] at ha
+    have := wf.2 a ha
+    omega
+
+/-- **C18_simulations_unobservable** — arbitrarily many consecutive simulations: for every history of confined
+    simulations the observable world at the end is the one at the start. -/
+theorem C18_simulations_unobservable (t : String → Bool) (hist : List (List (Addr × Int))) :
+    ∀ (w : World), w.WF → (∀ o ∈ w.nodes, Complete t o = true) → ConfinedAll t w hist →
+      (simulateAll t w hist).obs = w.obs ∧ (simulateAll t w hist).WF := by
+  induction hist with
+  | nil => intro w wf _ _; exact ⟨rfl, wf⟩
+  | cons ws rest ih =>
+    intro w wf hc conf
+    obtain ⟨c1, crest⟩ := conf
+    have ⟨hobs, hwf⟩ := C18_simulation_unobservable t w ws wf hc c1
+    have := ih (simulate t w ws) hwf (simulate_complete t w ws hc) crest
+    simp only [simulateAll]
+    exact ⟨this.1.trans hobs, this.2⟩
+
+/-- **C18_copies_faithful** — the nodes a simulation schedules against show exactly what the live nodes show (the
+    simulation decides on the real usage, ports, volumes, marks and nominations). -/
+theorem C18_copies_faithful (t : String → Bool) (w : World) (wf : w.WF) (hc : ∀ o ∈ w.nodes, Complete t o = true) :
+    (simCopies t w).map (observe (simHeap t w)) = w.nodes.map (observe w.heap) :=
+  copyAll_observe t w.nodes w.heap wf.1 hc
+
+/-- an object shaped like a `StateNode` (its reference fields are among the regenerated reference-holding fields) is
+    completely treated by the regenerated `DeepCopyInto` -/
+theorem C18_statenode_copy_complete (o : Obj) (h : IsStateNode o = true) : Complete stateNodeTreated o = true := by
+  have hfact := fact_deepcopy_complete.2.1
+  simp only [IsStateNode, List.all_eq_true, List.any_eq_true] at h
+  simp only [Complete, List.all_eq_true]
+  intro n hn
+  obtain ⟨f, hf, hfn⟩ := h n hn
+  simp only [Bool.and_eq_true, beq_iff_eq] at hfn
+  have := (List.all_eq_true.mp hfact) f hf
+  simp only [hfn.2, Bool.not_true, Bool.false_or] at this
+  simp only [stateNodeTreated, ← hfn.1]
+  exact this
+
+/-- **C18_statenode_simulations_unobservable** — the history theorem instantiated with the deep copy the source has:
+    for every cluster of `StateNode`-shaped objects and every history of confined simulations nothing observable
+    changes. -/
+theorem C18_statenode_simulations_unobservable (hist : List (List (Addr × Int))) (w : World) (wf : w.WF)
+    (shape : ∀ o ∈ w.nodes, IsStateNode o = true) (conf : ConfinedAll stateNodeTreated w hist) :
+    (simulateAll stateNodeTreated w hist).obs = w.obs :=
+  (C18_simulations_unobservable stateNodeTreated hist w wf
+    (fun o ho => C18_statenode_copy_complete o (shape o ho)) conf).1
+
+/-! ### The hypothesis matters: a field the deep copy does not treat leaks
+
+`DeepCopyInto` begins with `*out = *in`; a reference field it then fails to treat still points at the original's map.
+A write through the copy — confined in the sense above — is then visible in the live state. -/
+
+def leakWorld : World :=
+  { heap := { cell := fun a => if a = 0 then 5 else 0, next := 1 }, nodes := [[("hostPortUsage", .ref 0)]], shared := [] }
+
+/-- **C18_shallow_copy_leaks** — with an untreated reference field one write that is confined (it goes through the
+    copy) changes what the live node shows -/
+theorem C18_shallow_copy_leaks :
+    Confined (fun _ => false) leakWorld [(0, 9)] ∧
+    leakWorld.obs = ([[("hostPortUsage", 5)]], []) ∧
+    (simulate (fun _ => false) leakWorld [(0, 9)]).obs = ([[("hostPortUsage", 9)]], []) := by
+  refine ⟨?_, ?_, ?_⟩
+  · intro x hx
+    simp only [List.mem_singleton] at hx
+    subst hx
+    exact Or.inl ⟨[("hostPortUsage", .ref 0)], by simp [simCopies, leakWorld, copyAll, copyObj], by simp [refs]⟩
+  · simp [World.obs, leakWorld, observe]
+  · simp [World.obs, leakWorld, simulate, copyAll, copyObj, observe, Heap.writes, Heap.write]
+
+/-! ## A provisioning pass changes only nominations and pod bookkeeping -/
+
+/-- **C18_provision_frame** — for every live state, every outcome of a scheduling pass, every set of refused pods and
+    every clock: the model of the pass (`Results.Record` + `MarkPodSchedulingDecisions`) satisfies the specification's
+    frame: deletion marks are untouched; a nomination moves only on a node the pass placed a pod on, and then into the
+    future; the time a pod was first seen is untouched; the first decision time is write-once; a pod the pass neither
+    placed, failed nor refused keeps its bookkeeping. -/
+theorem C18_provision_frame (now batch : Int) (healthy ignored : List String) (o : Outcome) (l : Live) :
+    Karp.Spec.NoEffect.provisioningValuesOk now ignored o l (provisionPass now batch healthy ignored o l) = true := by
+  have h1 := nodes_frame now (nominationWindow batch) (nominationWindow_pos batch) o l.nodes
+  have h2 := pods_frame now healthy ignored o l.pods
+  have hl1 : (nominate now (nominationWindow batch) o l.nodes).length = l.nodes.length := by simp [nominate]
+  have hl2 : (markDecisions now healthy o (markIgnored now ignored l.pods)).length = l.pods.length := by
+    simp [markDecisions, markIgnored, applyEdits_eq_map]
+  simp only [Karp.Spec.NoEffect.provisioningValuesOk, provisionPass, hl1, hl2, beq_self_eq_true,
+    h1, h2, Bool.and_self]
+
+/-- **C18_simulation_values** — the values a simulation may move: none, except the refusal records of the pods
+    `GetPendingPods` ignores (first decision time kept or set, nothing else kept) -/
+theorem C18_simulation_values (now : Int) (ignored : List String) (l : Live) :
+    Karp.Spec.NoEffect.simulationValuesOk now ignored l (simulationPass now ignored l) = true := by
+  have h := sim_pods_frame now ignored l.pods
+  have hl : (markIgnored now ignored l.pods).length = l.pods.length := by simp [markIgnored, applyEdits_eq_map]
+  simp only [Karp.Spec.NoEffect.simulationValuesOk, simulationPass, hl, beq_self_eq_true, Bool.true_and, h]
+
+/-- **C18_history_stable** — over every history of provisioning passes (any outcomes), failed passes and simulations, at
+    any clock readings: the deletion marks, the set of nodes and pods, the time each pod was first seen, and every first
+    decision time already taken are what they were at the start. -/
+theorem C18_history_stable (steps : List Step) : ∀ l : Live, Stable l (runSteps l steps) := by
+  induction steps with
+  | nil => intro l; exact stable_refl l
+  | cons s rest ih =>
+    intro l
+    simp only [runSteps, List.foldl_cons]
+    exact stable_trans (step_stable s l) (ih (s.run l))
+
+/-- a simulation never nominates: over every history of simulations the nominations are what they were -/
+theorem C18_simulations_never_nominate (steps : List (Int × List String)) : ∀ l : Live,
+    (runSteps l (steps.map (fun s => Step.simulation s.1 s.2))).nodes = l.nodes := by
+  induction steps with
+  | nil => intro l; rfl
+  | cons s rest ih =>
+    intro l
+    simp only [List.map_cons, runSteps, List.foldl_cons]
+    have := ih ((Step.simulation s.1 s.2).run l)
+    simp only [runSteps] at this
+    rw [this]
+    rfl
+
+/-! ## Non-vacuity: concrete worlds meet the hypotheses and exercise the definitions -/
+
+/-- a two-node cluster whose nodes are shaped like `StateNode`s (usage maps, host ports, volumes behind references; the
+    deletion mark inline) plus one shared cell (an instance type) -/
+def demoWorld : World :=
+  { heap := { cell := fun a => [10, 11, 12, 20, 21, 22, 99].getD a 0, next := 7 },
+    nodes := [[("podRequests", .ref 0), ("hostPortUsage", .ref 1), ("volumeUsage", .ref 2), ("markedForDeletion", .scalar 0)],
+              [("podRequests", .ref 3), ("hostPortUsage", .ref 4), ("volumeUsage", .ref 5), ("markedForDeletion", .scalar 1)]],
+    shared := [6] }
+
+example : demoWorld.WF := by
+  constructor
+  · intro o ho a ha
+    simp only [demoWorld, List.mem_cons, List.mem_nil_iff, or_false] at ho
+    rcases ho with rfl | rfl <;> simp [refs] at ha <;> rcases ha with rfl | rfl | rfl <;> decide
+  · intro a ha; simp [demoWorld] at ha; subst ha; decide
+
+example : ∀ o ∈ demoWorld.nodes, IsStateNode o = true := by decide
+
+/-- the copies live at 7..12; a simulation that overwrites all of them and some scheduler-local cell is confined -/
+example : Confined stateNodeTreated demoWorld [(7, 0), (8, 0), (12, 5), (40, 1)] := by
+  intro x hx
+  simp only [List.mem_cons, List.mem_nil_iff, or_false] at hx
+  rcases hx with rfl | rfl | rfl | rfl
+  · exact Or.inl ⟨_, List.mem_cons_self, by decide⟩
+  · exact Or.inl ⟨_, List.mem_cons_self, by decide⟩
+  · exact Or.inl ⟨_, List.mem_cons_of_mem _ List.mem_cons_self, by decide⟩
+  · exact Or.inr (by decide)
+
+example : (simulate stateNodeTreated demoWorld [(7, 0), (8, 0), (12, 5), (40, 1)]).obs =
+    ([[("podRequests", 10), ("hostPortUsage", 11), ("volumeUsage", 12), ("markedForDeletion", 0)],
+      [("podRequests", 20), ("hostPortUsage", 21), ("volumeUsage", 22), ("markedForDeletion", 1)]], [99]) := by decide
+
+/-- a pass that places a pending pod on an existing managed node, opens a claim for another and fails a third -/
+def demoLive : Live :=
+  { nodes := [⟨"fake://n1", "n1", "nc-n1", 0, false⟩, ⟨"fake://n2", "n2", "", 0, true⟩],
+    pods := [⟨"a", 5, 0, 0, 0, ""⟩, ⟨"b", 6, 7, 0, 0, ""⟩, ⟨"c", 0, 0, 0, 0, ""⟩, ⟨"d", 0, 3, 3, 3, "nc-old"⟩] }
+
+def demoOutcome : Outcome :=
+  { existing := [⟨"fake://n1", "nc-n1", "pool-0", [⟨"a", false⟩]⟩], claims := [⟨"pool-1", [⟨"b", false⟩]⟩], errors := ["c"] }
+
+example : provisionPass 100 (10 * 1000000000) ["pool-0"] [] demoOutcome demoLive =
+    { nodes := [⟨"fake://n1", "n1", "nc-n1", 100 + 20 * 1000000000, false⟩, ⟨"fake://n2", "n2", "", 0, true⟩],
+      pods := [⟨"a", 5, 100, 100, 100, "nc-n1"⟩, ⟨"b", 6, 7, 100, 0, ""⟩, ⟨"c", 0, 100, 0, 0, ""⟩, ⟨"d", 0, 3, 3, 3, "nc-old"⟩] } := by
+  decide
+
+example : nominationWindow (1 * 1000000000) = 10 * 1000000000 ∧ nominationWindow (30 * 1000000000) = 60 * 1000000000 := by
+  decide
+
 end Karp.C18
